@@ -1,4 +1,4 @@
-import Gimli.Lemmas.WCfi
+import Gimli.Lemmas.WCfiTable
 /-!
 # C14 — Written frame tables read back with the same CIEs, FDEs and unwind rows
 
@@ -161,5 +161,148 @@ theorem decreasing_rejected (e : Endian) (caf prev offset : Nat) (h : offset < p
   unfold writeAdvanceLoc factoredCodeDelta
   rw [if_neg (by omega), if_pos h]
   rfl
+
+/-- success of the FDE instruction loop implies that the supplied code offsets never decrease -/
+def NonDecreasing : Nat → List (Nat × WInstr) → Prop
+  | _, [] => True
+  | prev, (o, _) :: is => prev ≤ o ∧ NonDecreasing o is
+
+/-- **decreasing_rejected, for a whole FDE program.** If the instruction loop of
+`FrameDescriptionEntry::write` succeeds, the code offsets were non-decreasing from the start
+(`prev_offset = 0`); contrapositive: any decrease anywhere makes the FDE, hence the table, fail. -/
+theorem fde_offsets_nondecreasing (e : Endian) (caf : Nat) (daf : Int) :
+    ∀ (is : List (Nat × WInstr)) (prev : Nat) (bs : Bytes),
+      fdeInstrsWrite e caf daf prev is = .ok bs → NonDecreasing prev is := by
+  intro is
+  induction is with
+  | nil => intro _ _ _; trivial
+  | cons oi is ih =>
+    obtain ⟨o, i⟩ := oi
+    intro prev bs h
+    rw [fdeInstrsWrite] at h
+    obtain ⟨adv, hadv, h⟩ := bind_ok_inv h
+    obtain ⟨a, _, h⟩ := bind_ok_inv h
+    obtain ⟨b, hb, _⟩ := bind_ok_inv h
+    refine ⟨?_, ih o b hb⟩
+    rcases Nat.lt_or_ge o prev with hlt | hge
+    · rw [decreasing_rejected e caf prev o hlt] at hadv; cases hadv
+    · exact hge
+
+/-! ## 5. entries are padded -/
+
+/-- **padding_aligned (what the writer guarantees, every format).** For every CIE and FDE the
+writer emits (address size 1, 2, 4 or 8; section below 2^64 bytes): the entry is its length field
+followed by exactly `length` bytes, and `word_size + length ≡ 0 (mod address_size)` where
+`word_size` is 4 / 8 for the 32- / 64-bit format.  The padding bytes are `DW_CFA_nop` (0). -/
+theorem padding_word_aligned (m : Mode) (e : Endian) (eh : Bool) (c : WCie) (bs : Bytes)
+    (ha : c.addressSize = 1 ∨ c.addressSize = 2 ∨ c.addressSize = 4 ∨ c.addressSize = 8)
+    (hlen : bs.length < 2 ^ 64) :
+    (∀ off, cieWrite m e eh c off = .ok bs →
+      (c.format.wordSize + (bs.length - lenFieldSize c.format)) % c.addressSize = 0) ∧
+    (∀ off cieOff f, fdeWrite m e eh off cieOff c f = .ok bs →
+      (c.format.wordSize + (bs.length - lenFieldSize c.format)) % c.addressSize = 0) :=
+  ⟨fun off h => (shape_aligned (cieWrite_shape m e eh c off bs h) ha hlen).1,
+   fun off cieOff f h => (shape_aligned (fdeWrite_shape m e eh off cieOff c f bs h) ha hlen).1⟩
+
+/-- **padding_aligned, partial.** *(length-field size + length) ≡ 0 (mod address size)* — i.e. the
+whole entry is a multiple of the address size, so that entries written back to back stay aligned —
+holds for every entry in the 32-bit format, and in the 64-bit format when the address size
+divides 4.
+
+Full-strength statement (not provable, the code violates it — recorded finding C14-2): the same
+for every format and address size.  The gap is exactly the 64-bit format with 8-byte addresses:
+the writer pads `8 + length` while the initial length occupies 12 bytes; see
+`padding_dwarf64_counterexample`. -/
+theorem padding_aligned_partial (m : Mode) (e : Endian) (eh : Bool) (c : WCie) (bs : Bytes)
+    (ha : c.addressSize = 1 ∨ c.addressSize = 2 ∨ c.addressSize = 4 ∨ c.addressSize = 8)
+    (hf : c.format = .dwarf32 ∨ c.addressSize ≠ 8)
+    (hlen : bs.length < 2 ^ 64) :
+    (∀ off, cieWrite m e eh c off = .ok bs → bs.length % c.addressSize = 0) ∧
+    (∀ off cieOff f, fdeWrite m e eh off cieOff c f = .ok bs → bs.length % c.addressSize = 0) := by
+  have key : ∀ {bs : Bytes}, EntryShape m e c.format c.addressSize bs → bs.length < 2 ^ 64 →
+      bs.length % c.addressSize = 0 := by
+    intro bs hs hl
+    obtain ⟨h1, h2⟩ := shape_aligned hs ha hl
+    cases hfm : c.format with
+    | dwarf32 =>
+      rw [hfm] at h1 h2
+      simp only [Format.wordSize, lenFieldSize] at h1 h2
+      have : 4 + (bs.length - 4) = bs.length := by omega
+      rw [this] at h1; exact h1
+    | dwarf64 =>
+      rw [hfm] at h1 h2
+      simp only [Format.wordSize, lenFieldSize] at h1 h2
+      have h8 : c.addressSize ≠ 8 := by
+        rcases hf with h | h
+        · rw [hfm] at h; cases h
+        · exact h
+      rcases ha with h | h | h | h <;> rw [h] at h1 ⊢ <;> omega
+  exact ⟨fun off h => key (cieWrite_shape m e eh c off bs h) hlen,
+         fun off cieOff f h => key (fdeWrite_shape m e eh off cieOff c f bs h) hlen⟩
+
+/-- **the gap of `padding_aligned` (finding C14-2), pinned.** A version 4 CIE in the 64-bit format
+with 8-byte addresses: the writer emits 28 bytes — 12 bytes of initial length plus `length` = 16 —
+which is 4 modulo the address size. -/
+theorem padding_dwarf64_counterexample :
+    ∃ bs, cieWrite .release .little false
+        { format := .dwarf64, version := 4, addressSize := 8, codeAlign := 1, dataAlign := -8, raReg := 16 } 0 = .ok bs ∧
+      bs.length = 28 ∧ bs.length % 8 = 4 := by
+  refine ⟨_, rfl, ?_, ?_⟩ <;> decide
+
+/-! ## 6. identical CIEs share one id and are emitted once, when first needed -/
+
+/-- **cie_dedup (ids).** `add_cie` of a CIE that is already in the table returns the existing id and
+leaves the table unchanged (idempotence); two consecutive calls return the same id exactly when
+the CIEs are equal (all fields: encoding, factors, register, augmentation, instructions); the id
+designates the added CIE, and ids handed out before keep designating theirs. -/
+theorem cie_dedup (t : Table) (a b : WCie) :
+    (t.addCie a).1.addCie a = ((t.addCie a).1, (t.addCie a).2) ∧
+    ((t.addCie a).2 = ((t.addCie a).1.addCie b).2 ↔ a = b) ∧
+    (t.addCie a).1.cies[(t.addCie a).2]? = some a ∧
+    (∀ (i : Nat) (x : WCie), t.cies[i]? = some x → (t.addCie a).1.cies[i]? = some x) :=
+  ⟨addCie_idem t a, addCie_eq_iff t a b, addCie_get t a, fun i x h => addCie_stable t a x i h⟩
+
+/-- **cie_dedup (any call sequence).** After any sequence of `add_cie` calls on an empty table the
+table holds no CIE twice, and two calls returned the same id **iff** they were given equal CIEs. -/
+theorem cie_dedup_calls (cs : List WCie) (j k : Nat) (hj : j < cs.length) (hk : k < cs.length) :
+    (({} : Table).addCies cs).1.cies.Nodup ∧
+    ((({} : Table).addCies cs).2[j]? = (({} : Table).addCies cs).2[k]? ↔ cs[j] = cs[k]) := by
+  obtain ⟨hnd, _, _, hget⟩ := addCies_spec cs ({} : Table) (by simp)
+  refine ⟨hnd, ?_⟩
+  obtain ⟨idj, hidj, hgj⟩ := hget j hj
+  obtain ⟨idk, hidk, hgk⟩ := hget k hk
+  rw [hidj, hidk]
+  constructor
+  · intro h
+    injection h with h
+    subst h
+    rw [hgj] at hgk
+    injection hgk
+  · intro h
+    rw [h] at hgj
+    rw [nodup_getElem?_inj hnd hgj hgk]
+
+/-- **cie_dedup (emission).** In the entries written for a table (either section): a CIE is written
+at most once (`Nodup`), it is written **iff** some FDE refers to it (CIEs nobody uses are not
+written), it is written right before the first FDE that uses it (`CieThenFde`: every CIE entry is
+immediately followed by an FDE entry of that CIE, placed right behind it), and the entries lie back
+to back from offset 0 (`Contiguous`), so the section is their concatenation. -/
+theorem cie_emitted_once (m : Mode) (e : Endian) (eh : Bool) (t : Table) (es : List Entry)
+    (h : tableEntries m e eh t = .ok es) :
+    (cieIdxs es).Nodup ∧ (∀ i, i ∈ cieIdxs es ↔ ∃ f, (i, f) ∈ t.fdes) ∧
+    CieThenFde es ∧ Contiguous 0 es ∧ tableWrite m e eh t = .ok (es.flatMap Entry.bytes) := by
+  unfold tableEntries at h
+  obtain ⟨h1, h2, h3, h4⟩ := writeLoop_inv m e eh t.cies t.fdes _ 0 es (by simp) h
+  refine ⟨h1, ?_, h3, h4, ?_⟩
+  · intro i
+    rw [h2 i]
+    have : (List.replicate t.cies.length (none : Option Nat)).getD i none = none := by
+      simp only [List.getD_eq_getElem?_getD, List.getElem?_replicate]
+      split <;> rfl
+    rw [this]
+    exact ⟨fun hh => hh.2, fun hh => ⟨rfl, hh⟩⟩
+  · unfold tableWrite tableEntries
+    rw [h]
+    rfl
 
 end Gimli.Props.C14
